@@ -56,13 +56,15 @@ type simStore struct {
 	trace []*callRec
 	fired map[string]int
 	armedAt int
+	inflight int
+	probes   map[string]int // reach probes: rare conditions that were actually hit
 	failed  int // calls that returned an error to the engine (injected, or ctx.Err() of a context aware driver)
 }
 
 var errInjected = errors.New("simstore: injected storage driver failure")
 
 func newSimStore(inner storage.Store, cfg simStoreCfg) *simStore {
-	return &simStore{inner: inner, cfg: cfg, fired: map[string]int{}}
+	return &simStore{inner: inner, cfg: cfg, fired: map[string]int{}, probes: map[string]int{}}
 }
 
 // begin records a call, yields to the scheduler and returns the fault (if any)
@@ -76,6 +78,10 @@ func (s *simStore) begin(ctx context.Context, method, desc string, stream, write
 		if s.cfg.Faults[i].Call == rec.Idx {
 			f = &s.cfg.Faults[i]
 		}
+	}
+	s.inflight++
+	if s.inflight >= 2 {
+		s.probes["driver_call_started_while_another_is_in_flight"]++
 	}
 	s.mu.Unlock()
 	sim.Point(-20)
@@ -96,8 +102,18 @@ func (s *simStore) cancelNow(rec *callRec) {
 		s.cfg.Cancel()
 		s.mu.Lock()
 		s.fired["caller_cancel"]++
+		if s.inflight >= 2 {
+			s.probes["cancel_while_other_driver_calls_in_flight"]++
+		}
 		s.mu.Unlock()
 	}
+}
+
+// end marks a driver call as returned.
+func (s *simStore) end() {
+	s.mu.Lock()
+	s.inflight--
+	s.mu.Unlock()
 }
 
 // ctxErr: what a context aware driver returns when it notices that its context is done.
@@ -135,6 +151,9 @@ func (s *simStore) fire(rec *callRec, kind string) {
 	rec.Faulted = kind
 	s.fired[kind]++
 	s.failed++
+	if s.inflight >= 2 {
+		s.probes["fault_while_other_driver_calls_in_flight"]++
+	}
 	s.mu.Unlock()
 }
 
@@ -156,6 +175,7 @@ func (s *simStore) Version(ctx context.Context) string { return s.inner.Version(
 
 func (s *simStore) NewGraph(ctx context.Context, id string) (storage.Graph, error) {
 	rec, f, cerr := s.begin(ctx, "NewGraph", id, false, true)
+	defer s.end()
 	if cerr != nil {
 		return nil, cerr
 	}
@@ -172,6 +192,7 @@ func (s *simStore) NewGraph(ctx context.Context, id string) (storage.Graph, erro
 
 func (s *simStore) Graph(ctx context.Context, id string) (storage.Graph, error) {
 	rec, f, cerr := s.begin(ctx, "Graph", id, false, false)
+	defer s.end()
 	if cerr != nil {
 		return nil, cerr
 	}
@@ -188,6 +209,7 @@ func (s *simStore) Graph(ctx context.Context, id string) (storage.Graph, error) 
 
 func (s *simStore) DeleteGraph(ctx context.Context, id string) error {
 	rec, f, cerr := s.begin(ctx, "DeleteGraph", id, false, true)
+	defer s.end()
 	if cerr != nil {
 		return cerr
 	}
@@ -200,6 +222,7 @@ func (s *simStore) DeleteGraph(ctx context.Context, id string) error {
 
 func (s *simStore) GraphNames(ctx context.Context, names chan<- string) error {
 	rec, f, cerr := s.begin(ctx, "GraphNames", "", true, false)
+	defer s.end()
 	if cerr != nil {
 		close(names)
 		return cerr
@@ -289,6 +312,7 @@ func (g *simGraph) ID(ctx context.Context) string { return g.g.ID(ctx) }
 
 func (g *simGraph) AddTriples(ctx context.Context, ts []*triple.Triple) error {
 	rec, f, cerr := g.s.begin(ctx, "AddTriples", fmt.Sprintf("%s n=%d", g.id, len(ts)), false, true)
+	defer g.s.end()
 	if cerr != nil {
 		return cerr
 	}
@@ -301,6 +325,7 @@ func (g *simGraph) AddTriples(ctx context.Context, ts []*triple.Triple) error {
 
 func (g *simGraph) RemoveTriples(ctx context.Context, ts []*triple.Triple) error {
 	rec, f, cerr := g.s.begin(ctx, "RemoveTriples", fmt.Sprintf("%s n=%d", g.id, len(ts)), false, true)
+	defer g.s.end()
 	if cerr != nil {
 		return cerr
 	}
@@ -313,6 +338,7 @@ func (g *simGraph) RemoveTriples(ctx context.Context, ts []*triple.Triple) error
 
 func (g *simGraph) Exist(ctx context.Context, t *triple.Triple) (bool, error) {
 	rec, f, cerr := g.s.begin(ctx, "Exist", g.id+" "+t.String(), false, false)
+	defer g.s.end()
 	if cerr != nil {
 		return false, cerr
 	}
@@ -337,6 +363,7 @@ func collect[T any](call func(chan T) error) ([]T, error) {
 
 func stream[T any](ctx context.Context, g *simGraph, method, desc string, lo *storage.LookupOptions, out chan<- T, call func(chan T) error) error {
 	rec, f, cerr := g.s.begin(ctx, method, g.id+" "+desc+" "+lo.String(), true, false)
+	defer g.s.end()
 	if cerr != nil {
 		close(out)
 		return cerr
